@@ -89,6 +89,7 @@ def run(ctx, crate):
         ok = len(cen) == 1 and len(vl) == 1 and cen[0].args[1] == param("hash") and vl[0].args[1] == ('fld', cen[0].ret, 0) and vl[0].args[2] == ('fld', cen[0].ret, 1)
         ctx.report(clause, fn3.split("::")[-1] + ":via-vertex_lonlat(centre)", ok, "%s(hash, ..) = vertex_lonlat(center_of_projected_cell(hash), dir)" % fn3.split("::")[-1], at=b3.span)
     hash_with_dxdy_wrap(ctx, crate)
+    offset_map_siblings(ctx, crate)
     # base-cell centre offsets table vs model
     fnc = "nested::compute_base_cell_center_offsets_in_8x3_grid"
     cand = [p for p in crate.bodies if p.endswith("compute_base_cell_center_offsets_in_8x3_grid")]
@@ -128,3 +129,45 @@ def hash_with_dxdy_wrap(ctx, crate, clause="hash_with_dxdy-wrap"):
         ok = bool(wrapped) and xy[3][1] == ('fld', pj[0].ret, 1)
         detail = "shift_rotate_scale receives (ensures_x_is_positive(proj(lon, lat).0), proj(lon, lat).1)" if ok else "the x handed to shift_rotate_scale is %s: not the projected x wrapped into [0, 8)" % (show(x)[:80] if x else None)
     ctx.report(clause, fn + ":x-wrapped-before-decomposition", ok, detail, at=b.span, kind="N")
+
+
+def offset_map_siblings(ctx, crate, clause="offset-map-siblings"):
+    """N: sph_coo(h, dx, dy) and grid(h, n) place the point of in-cell offsets (dx, dy) at the same
+    projection-plane position: centre + ((dx - dy) o, (dx + dy - 1) o).  The two accessors are
+    written independently (sibling agreement); the grid abscissae i/n, j/n are kept as atoms."""
+    cpc = L + "center_of_projected_cell"
+    o_t = ('fld', ('deref', param("self")), crate.field_index("nested::Layer", "one_over_nside"))
+    X, Y, O, DX, DY = (Poly.var(v) for v in ("x", "y", "o", "dx", "dy"))
+    want = (X + (DX - DY) * O, Y + (DX + DY - Poly.const(1)) * O)
+    res = {}
+    # sph_coo
+    fn = L + "sph_coo"
+    b = ctx.anchor(crate, fn, clause)
+    if b is not None:
+        e = Engine(crate, opaque={cpc, "unproj", "ensures_x_is_positive"}); e.run(fn); ctx.functions |= e.visited_fns
+        cen = [ev for ev in e.events.values() if ev.callee == cpc]; un = [ev for ev in e.events.values() if ev.callee == "unproj"]
+        if len(cen) == 1 and len(un) == 1:
+            nm = {('fld', cen[0].ret, 0): "x", ('fld', cen[0].ret, 1): "y", o_t: "o", param("dx"): "dx", param("dy"): "dy"}
+            ua = unproj_args(e, un[0].ret)
+            res["sph_coo"] = (to_poly(ua[0], nm), to_poly(ua[1], nm)) if ua else None
+    # grid
+    fn2 = L + "grid"
+    b2 = ctx.anchor(crate, fn2, clause)
+    if b2 is not None:
+        e = Engine(crate, opaque={cpc, "unproj", "ensures_x_is_positive"}); e.run(fn2); ctx.functions |= e.visited_fns
+        cen = [ev for ev in e.events.values() if ev.callee == cpc]; un = [ev for ev in e.events.values() if ev.callee == "unproj"]
+        if len(cen) == 1 and len(un) == 1:
+            ua = unproj_args(e, un[0].ret)
+            divs = []
+            for t in (ua[0], ua[1]):
+                for x in walk(t):
+                    if x[0] == 'op' and x[1] == 'div' and x not in divs: divs.append(x)
+            # the abscissa along the S->E axis appears with +1 in the x coordinate's (dx - dy): identify by sign
+            if len(divs) == 2:
+                for perm in ((divs[0], divs[1]), (divs[1], divs[0])):
+                    nm = {('fld', cen[0].ret, 0): "x", ('fld', cen[0].ret, 1): "y", o_t: "o", perm[0]: "dx", perm[1]: "dy"}
+                    p = (to_poly(ua[0], nm), to_poly(ua[1], nm))
+                    if p[0] == want[0]: res["grid"] = p; break
+                else: res["grid"] = (to_poly(ua[0], {('fld', cen[0].ret, 0): "x", o_t: "o", divs[0]: "dx", divs[1]: "dy"}), None)
+    ok = res.get("sph_coo") == want and res.get("grid") == want
+    ctx.report(clause, "sph_coo==grid:offset-map", ok, "both: centre + ((dx - dy)·o, (dx + dy - 1)·o)" if ok else "sph_coo: %s ; grid: %s ; expected %s" % (res.get("sph_coo"), res.get("grid"), want), at=b.span if b else None, kind="N")
